@@ -59,10 +59,10 @@ Fixpoint ld_kids (st : lstate) (parent_q : qname) (ks : list node) : lstate * li
   | k :: r => let '(s1, k') := ld_node st parent_q k in let '(s2, r') := ld_kids s1 parent_q r in (s2, k' :: r')
   end.
 
-(* text after the last element child of a section goes to a detached node: it is lost *)
-Fixpoint drop_lead_text (ks : list node) : list node :=
-  match ks with Elem q a k :: r => ks | _ :: r => drop_lead_text r | [] => [] end.
-Definition keep (ks : list node) : list node := rev (drop_lead_text (rev ks)).
+(* the character data of a section element reaches the document's section through its element children (before a child:
+   flushed to the parent; after the last one: to the parent of the child that just ended); a section without element
+   children leaves its text on the detached element the parser created for it: lost *)
+Definition keep (ks : list node) : list node := if existsb is_element ks then ks else [].
 
 Inductive partname := PnSettings | PnMeta | PnContent | PnStyles.
 Inductive secid := SMeta | SScripts | SFfd | SSettings | SStyles | SAuto | SMaster | SBody.
